@@ -1163,10 +1163,31 @@ class Emitter:
                 gn = None
                 if a1[0] == 'cgep' and a1[1][1][0] == 'global': gn = a1[1][1][1]
                 elif a1[0] == 'global': gn = a1[1]
+                def cmsg(v):
+                    g_ = None
+                    if v[0] == 'cgep' and v[1][1][0] == 'global': g_ = v[1][1][1]
+                    elif v[0] == 'global': g_ = v[1]
+                    gg = s.mod.globals.get(g_) if g_ is not None else None
+                    if gg and gg['init'] and gg['init'][0] == 'cstr':
+                        return gg['init'][1].rstrip(b'\0').decode('latin1').replace('"', "'").replace('\\', '/')
+                    return None
                 if gn is not None:
-                    g = s.mod.globals.get(gn)
-                    if g and g['init'] and g['init'][0] == 'cstr':
-                        msg = g['init'][1].rstrip(b'\0').decode('latin1').replace('"', "'").replace('\\', '/')
+                    m_ = cmsg(a1)
+                    if m_ is not None: msg = m_
+                elif a1[0] == 'local':
+                    # several assertion sites merged by LLVM: the message is a phi of string constants; keep the texts
+                    dd = s.defs.get(a1[1])
+                    if dd and dd['op'] == 'phi':
+                        alts = [(iv, cmsg(iv)) for iv, _pred in dd.get('inc', [])]
+                        if alts and all(m is not None for _v, m in alts):
+                            seen = []
+                            line = '  '
+                            for iv, m in alts:
+                                if m in seen: continue
+                                seen.append(m)
+                                line += 'if (%s == %s) { VERIF_ASSERT(%s, "%s"); } else ' % (s.val(a1), s.val(iv), s.val(args[0]), m)
+                            line += '{ VERIF_ASSERT(%s, "assertion"); }' % s.val(args[0])
+                            o.append(line); return
                 o.append('  VERIF_ASSERT(%s, "%s");' % (s.val(args[0]), msg)); return
             if nm in ('__CPROVER_assume', 'verif_assume'):
                 o.append('  VERIF_ASSUME(%s);' % s.val(args[0])); return
